@@ -108,6 +108,11 @@ def check(run):
     from . import C01
     with R.as_rule('C05.exact'):
         C01.alias(R)
+    R.rule('C05.inflated', 'a compressed text reaches the strict decode as the peer sent it: the inflater is configured from '
+                           'the negotiated server window / takeover flag, fed every fragment and the trailer', 10)
+    with R.as_rule('C05.inflated'):
+        C06.wiring(R)
+        C06.tail(R)
     from .common import event_fields
     event_fields(R, 'C05.exact', ['Text', 'Closed', 'Closing'])     # the delivered string is the decoded string
     awaitables_fresh(R, 'C05.route')         # a read cut across two recv() calls does not change what the next read sees
@@ -544,8 +549,49 @@ def route(R, RID='C05.route'):
         R.ob(RID, 'raw read never for text', not bad,
              'a TEXT frame or a continuation of a text message can be read without incremental validation; '
              'path conditions: %s' % (bad[:1],), func=f, node=y.stmt)
-    # every frame with a payload reads it: from `start`, paths to `yield frame` with payload_length true pass a read
-    # (conservation of payload is C01's business)
+    # the flag consulted for the routing decision is the one the previous frames left (plus `is_text -> True` for this
+    # frame): nothing between the frame construction and a payload read clears or resets it - the end-of-message
+    # bookkeeping (on_frame) runs after the payload
+    clearers = set()
+    for fq_, fi_ in R.prog.funcs.items():
+        if fi_.module.name != 'frame_parser' or fi_.cls is None:
+            continue
+        for x_ in own_nodes(fi_.node):
+            if isinstance(x_, ast.Assign) and any(isinstance(t_, ast.Attribute) and t_.attr == '_is_text' for t_ in x_.targets) \
+                    and not (isinstance(x_.value, ast.Constant) and x_.value.value is True):
+                clearers.add(fq_)
+            if isinstance(x_, ast.Call) and isinstance(x_.func, ast.Attribute) and x_.func.attr == 'reset' \
+                    and '_utf8_validator' in U(x_.func.value):
+                clearers.add(fq_)
+    work_ = list(clearers)
+    while work_:                    # ... or call something that does (ClientFrameParser.on_frame -> super().on_frame)
+        q_ = work_.pop()
+        for (cx_, _, _) in R.types.callers.get(q_, []):
+            cq_ = cx_.func.qual
+            if cx_.func.module.name == 'frame_parser' and cq_ not in clearers and cq_ != q:
+                clearers.add(cq_)
+                work_.append(cq_)
+    sites_ = [site for (site, call, extra, y) in reads]
+    region = set(g.reachable([start], avoid=set(sites_), skip_edge=lambda a, b, l: l.startswith('exc:')))
+    early = []
+    for n_ in region:
+        if n_ is start or not any(s_ in g.reachable([n_], avoid={start}, skip_edge=lambda a, b, l: l.startswith('exc:'))
+                                  for s_ in sites_):
+            continue                # (reaching a read only through the next frame's construction does not count)
+        if any(fr.kind == 'loop' for fr in n_.frames) and n_ in sites_:
+            continue
+        if n_.kind == 'stmt' and isinstance(n_.ast, ast.Assign) and any(
+                isinstance(t_, ast.Attribute) and t_.attr == '_is_text' for t_ in n_.ast.targets) and not (
+                    isinstance(n_.ast.value, ast.Constant) and n_.ast.value.value is True):
+            early.append(n_.text())
+        for c_ in n_.calls:
+            for t_ in R.types.call_targets(c_, ctx):
+                if t_.kind == 'func' and t_.func.qual in clearers and t_.func.qual != q:
+                    early.append(U(c_))
+    R.ob(RID, 'text tracking is settled only after the payload was read', not early,
+         'between the frame header and the payload read %s clears / resets the text tracking state: the final fragment of '
+         'a text message is then read without the incremental validator (invalid bytes are no longer reported as they '
+         'arrive)' % sorted(set(early)), func=f, node=None, construct='flag cleared before the payload read')
 
     # read_text body
     q2 = 'frame_parser.FrameParser.read_text'
